@@ -25,6 +25,7 @@ import (
 	"pgregory.net/rapid"
 
 	"verifharness/ref/h2fp"
+	"verifharness/ref/hello"
 	"verifharness/rig"
 	"verifharness/vstat"
 )
@@ -435,4 +436,233 @@ func TestVerifWiringC14(t *testing.T) {
 			colC14.Case(fmt.Sprintf("%+v", s), s.SNI == "", s, "sni:"+s.SNI, "style:"+s.Style)
 			return nil
 		}})
+}
+
+// ---- C01 / C02 / C05 / C09 / C16: the binary's default injector set, header names and metric -------
+//
+// One generated connection (generated ClientHello, generated delivery, 1-3 requests carrying
+// client-supplied values under the fingerprint and forwarding header names) runs through the server
+// built by wired() with the default command line, followed by 0-2 connections that fail before the
+// handshake. Each property judges its own aspect of the same observation.
+
+type defScript struct {
+	Conn  rig.ConnScript `json:"conn"`
+	NFail int            `json:"nfail"`
+}
+
+type defObs struct {
+	res     *rig.ConnResult
+	parsed  *hello.Parsed
+	metrics map[string]float64 // "ok|proto" -> count
+}
+
+var spoofNames = []string{"X-JA3-Fingerprint", "x-ja3-fingerprint", "X-Ja4-Fingerprint", "X-JA4-FINGERPRINT", "X-HTTP2-Fingerprint", "x-http2-fingerprint",
+	"X-Forwarded-For", "X-Forwarded-Host", "X-Forwarded-Proto", "Forwarded"}
+
+func genDef(t *rapid.T) defScript {
+	s := defScript{Conn: rig.GenConnScript(t), NFail: rapid.IntRange(0, 2).Draw(t, "nfail")}
+	s.Conn.SplitHello = 0 // (two-record hellos are a listed finding of C01/C02; not a wiring matter)
+	s.Conn.Custom = false
+	s.Conn.PeerIP = rapid.SampledFrom([]string{"198.51.100.7", "10.1.2.3", "2001:db8::7"}).Draw(t, "ip")
+	n := rapid.IntRange(0, 4).Draw(t, "nspoof")
+	for i := 0; i < n; i++ {
+		name := rapid.SampledFrom(spoofNames).Draw(t, "sn")
+		val := rapid.SampledFrom([]string{"spoofed", "771,4865,,,", "t13d0000h2_000000000000_000000000000", "1.2.3.4", "http", "for=1.1.1.1"}).Draw(t, "sv")
+		s.Conn.ExtraHeaders = append(s.Conn.ExtraHeaders, [2]string{name, val})
+	}
+	return s
+}
+
+// runDef returns nil when the case has to be discarded (the reason is counted on col).
+func runDef(t *testing.T, col *vstat.Collector, s defScript) *defObs {
+	o := &defObs{metrics: map[string]float64{}}
+	msg := rig.Bubble(t, func() {
+		p := rig.StartProxy(rig.ProxyOpts{Build: wired(nil)})
+		reg := PrometheusRegistry
+		o.res = rig.RunConn(p, s.Conn, "w")
+		for i := 0; i < s.NFail; i++ {
+			raw, _, err := p.Ln.Dial(rig.DialOpts{})
+			if err != nil {
+				continue
+			}
+			raw.Write([]byte("GET / HTTP/1.1\r\nHost: x\r\n\r\n"))
+			rig.Wait()
+			raw.Close()
+		}
+		rig.Wait()
+		p.Stop()
+		mfs, _ := reg.Gather()
+		for _, mf := range mfs {
+			if mf.GetName() != "fingerproxy_requests_total" {
+				continue
+			}
+			for _, m := range mf.GetMetric() {
+				var ok, proto string
+				for _, l := range m.GetLabel() {
+					switch l.GetName() {
+					case "ok":
+						ok = l.GetValue()
+					case "negotiated_protocol":
+						proto = l.GetValue()
+					default:
+						ok += "?" + l.GetName()
+					}
+				}
+				o.metrics[ok+"|"+proto] += m.GetCounter().GetValue()
+			}
+		}
+	})
+	switch {
+	case msg != "" || o.res == nil:
+		col.Class("discard:bubble", 1)
+	case o.res.HandshakeErr != nil:
+		col.Class("discard:handshake-failed", 1)
+	case o.res.H2Rejected:
+		col.Class("discard:h2-rejected", 1)
+	case len(o.res.Requests) == 0:
+		col.Class("discard:nothing-forwarded", 1)
+	default:
+		p, err := hello.Parse(o.res.Record)
+		if err != nil {
+			col.Class("discard:reference-cannot-parse", 1)
+			break
+		}
+		o.parsed = p
+		return o
+	}
+	col.Discard()
+	return nil
+}
+
+// sniLenKnown: tlsx mis-computes the server_name_list length for some name lengths (a listed
+// finding of C01/C02 decided by the c01/c02 checks); such hellos say nothing about the wiring.
+func sniLenKnown(cl []string) bool {
+	for _, c := range cl {
+		var n int
+		if _, err := fmt.Sscanf(c, "sni:len=%d", &n); err == nil && (n+3)&0xff < (n+3)>>8 {
+			return true
+		}
+	}
+	return false
+}
+
+func defCase(col *vstat.Collector, s defScript, o *defObs) {
+	cl := []string{"proto:" + o.res.Proto, fmt.Sprintf("spoofed-headers:%d", min(len(s.Conn.ExtraHeaders), 2)), fmt.Sprintf("failed-conns:%d", s.NFail)}
+	col.Case(fmt.Sprintf("%x|%v|%d|%v|%d", o.res.Record, s.Conn.Segments, s.Conn.NReq, s.Conn.ExtraHeaders, s.NFail), len(s.Conn.ExtraHeaders) > 0 || s.NFail > 0,
+		map[string]any{"proto": o.res.Proto, "requests": len(o.res.Requests), "client_headers": s.Conn.ExtraHeaders, "failed_conns": s.NFail, "record_len": len(o.res.Record)}, cl...)
+}
+
+func wantFingerprints(o *defObs) map[string]string {
+	w := map[string]string{"X-Ja3-Fingerprint": hello.JA3(o.parsed), "X-Ja4-Fingerprint": hello.JA4(o.parsed)}
+	if o.res.Proto == "h2" {
+		w["X-Http2-Fingerprint"] = h2fp.Fingerprint([]h2fp.Frame{{Kind: "settings"}, {Kind: "headers", Stream: 1, Names: []string{":method", ":scheme", ":authority", ":path"}}}, -1)
+	}
+	return w
+}
+
+func wiringDefaults(t *testing.T, col *vstat.Collector, judge func(s defScript, o *defObs) *vstat.Violation) {
+	rig.Certs()
+	col.Mandatory("proto:h2", "proto:http/1.1", "spoofed-headers:2", "failed-conns:2")
+	vstat.Run(t, vstat.Spec[defScript]{Col: col, Quick: 300, Thorough: 6000, Gen: genDef,
+		Exec: func(s defScript) *vstat.Violation {
+			o := runDef(t, col, s)
+			if o == nil {
+				return nil
+			}
+			if sniLenKnown(s.Conn.Classes) {
+				col.Class("discard:sni-length-finding", 1)
+				col.Discard()
+				return nil
+			}
+			if v := judge(s, o); v != nil {
+				return v
+			}
+			defCase(col, s, o)
+			return nil
+		}})
+}
+
+var colC01w = vstat.New("C01", "c01.wiring")
+
+func TestVerifWiringC01(t *testing.T) {
+	wiringDefaults(t, colC01w, func(s defScript, o *defObs) *vstat.Violation {
+		want := hello.JA3(o.parsed)
+		for i, r := range o.res.Requests {
+			if v := r.Header.Values("X-Ja3-Fingerprint"); len(v) != 1 || v[0] != want {
+				return vstat.Violf("wiring:default-injectors|ja3-header-wrong", "request %d (proto %q): X-JA3-Fingerprint=%q, expected %s", i, o.res.Proto, v, want)
+			}
+		}
+		return nil
+	})
+}
+
+var colC02w = vstat.New("C02", "c02.wiring")
+
+func TestVerifWiringC02(t *testing.T) {
+	wiringDefaults(t, colC02w, func(s defScript, o *defObs) *vstat.Violation {
+		want := hello.JA4(o.parsed)
+		for i, r := range o.res.Requests {
+			if v := r.Header.Values("X-Ja4-Fingerprint"); len(v) != 1 || v[0] != want {
+				return vstat.Violf("wiring:default-injectors|ja4-header-wrong", "request %d (proto %q): X-JA4-Fingerprint=%q, expected %s", i, o.res.Proto, v, want)
+			}
+		}
+		return nil
+	})
+}
+
+var colC05w = vstat.New("C05", "c05.wiring")
+
+func TestVerifWiringC05(t *testing.T) {
+	wiringDefaults(t, colC05w, func(s defScript, o *defObs) *vstat.Violation {
+		want := wantFingerprints(o)
+		for i, r := range o.res.Requests {
+			for _, name := range []string{"X-Ja3-Fingerprint", "X-Ja4-Fingerprint", "X-Http2-Fingerprint"} {
+				got := r.Header.Values(name)
+				w, has := want[name]
+				if (has && (len(got) != 1 || got[0] != w)) || (!has && len(got) != 0) {
+					return vstat.Violf("wiring:default-injectors|fingerprint-header-not-the-proxys", "request %d (proto %q, client sent %v): backend got %s=%q, the proxy's own value is %q (present=%v)", i, o.res.Proto, s.Conn.ExtraHeaders, name, got, w, has)
+				}
+			}
+		}
+		return nil
+	})
+}
+
+var colC09w = vstat.New("C09", "c09.wiring")
+
+func TestVerifWiringC09(t *testing.T) {
+	wiringDefaults(t, colC09w, func(s defScript, o *defObs) *vstat.Violation {
+		ip := net.ParseIP(s.Conn.PeerIP).String()
+		for i, r := range o.res.Requests {
+			xff := strings.Split(strings.Join(r.Header.Values("X-Forwarded-For"), ","), ",")
+			if last := strings.TrimSpace(xff[len(xff)-1]); last != ip {
+				return vstat.Violf("wiring:forwarding|xff-last-not-peer", "request %d (client sent %v): X-Forwarded-For %q, peer %s", i, s.Conn.ExtraHeaders, r.Header.Values("X-Forwarded-For"), ip)
+			}
+			if v := r.Header.Values("X-Forwarded-Host"); len(v) != 1 || v[0] != "example.com" {
+				return vstat.Violf("wiring:forwarding|xfh-wrong", "request %d (client sent %v): X-Forwarded-Host %q", i, s.Conn.ExtraHeaders, v)
+			}
+			if v := r.Header.Values("X-Forwarded-Proto"); len(v) != 1 || v[0] != "https" {
+				return vstat.Violf("wiring:forwarding|xfp-wrong", "request %d (client sent %v): X-Forwarded-Proto %q", i, s.Conn.ExtraHeaders, v)
+			}
+			if v := r.Header.Values("Forwarded"); len(v) != 0 {
+				return vstat.Violf("wiring:forwarding|forwarded-passed-on", "request %d: Forwarded %q reached the backend", i, v)
+			}
+		}
+		return nil
+	})
+}
+
+var colC16w = vstat.New("C16", "c16.wiring")
+
+func TestVerifWiringC16(t *testing.T) {
+	wiringDefaults(t, colC16w, func(s defScript, o *defObs) *vstat.Violation {
+		want := map[string]float64{"1|" + o.res.Proto: 1}
+		if s.NFail > 0 {
+			want["0|"] = float64(s.NFail)
+		}
+		if fmt.Sprint(want) != fmt.Sprint(o.metrics) {
+			return vstat.Violf("wiring:metrics-registry|requests_total-wrong", "one served connection (proto %q) and %d failed ones: fingerproxy_requests_total by ok|negotiated_protocol = %v, expected %v", o.res.Proto, s.NFail, o.metrics, want)
+		}
+		return nil
+	})
 }
